@@ -41,6 +41,10 @@ def run(c):
     S.exhaustive(c, "2 operators, savepoints", MaxLen=1000, StartId=2, IdSpan=3 if quick else 4, MaxInFlight=3, MaxRestarts=2,
                  Ops={"o1", "o2"}, Acts=S.PUBL, timeout=2400)
     S.exhaustive(c, "full alphabet, depth-bounded", MaxLen=9 if quick else 11, StartId=2, IdSpan=3)
+    if not quick:
+        S.exhaustive(c, "6 checkpoints, 3 restarts", MaxLen=1000, StartId=1, IdSpan=6, MaxInFlight=3, MaxRestarts=3, Acts=S.GOOD)
+        S.exhaustive(c, "2x2 assembly, 4 publications in flight", MaxLen=1000, StartId=1, IdSpan=5, MaxInFlight=4, MaxRestarts=3, Acts=S.GOOD,
+                     Ops={"o1", "o2"}, Srs={"s1", "s2"})
     # 2. non-vacuity: each pre-repair behaviour is a counterexample
     S.must_break(c, "Pre_ListLexical", {"NoBad"}, MaxLen=1000, StartId=2, Acts=S.GOOD)
     S.must_break(c, "Pre_LateClobbers", {"NoBad", "NewestSurvives", "CurrentIsNewest", "OperatorsKeepNewest", "RetainNamesNewest"}, MaxLen=1000, StartId=1, Acts=S.GOOD)
